@@ -252,7 +252,38 @@ func (c *c08Case) Oracle() (bool, string) {
 	return true, ""
 }
 
-func (c *c08Case) Sx() string { return "" }
+func (c *c08Case) Sx() string {
+	if c.Fatal != "" {
+		return ""
+	}
+	var tables, gets, froms, ranges []string
+	var vals [][]byte
+	for _, t := range c.Tables {
+		tables = append(tables, sxTblKVs(t))
+		vals = append(vals, valuesOf(t)...)
+	}
+	for i, p := range c.Probes {
+		g := c.Gets[i]
+		gets = append(gets, sxL(sxB(p), sxRes(sxBool(g.Contains), g.CErr), sxRes(sxOBn(g.V, g.Nil), g.Err)))
+		froms = append(froms, sxL(sxB(p), c.Froms[i].sx()))
+	}
+	for i, b := range c.Bounds {
+		r := c.Ranges[i]
+		if len(r.Err) > 5 && r.Err[:5] == "Open:" {
+			ranges = append(ranges, sxL(sxB(b[0]), sxB(b[1]), "()"))
+		} else {
+			ranges = append(ranges, sxL(sxB(b[0]), sxB(b[1]), sxL(r.sx())))
+		}
+	}
+	if c.CompErr != "" || c.CompSTErr != "" || c.MergeErr != "" {
+		return ""
+	}
+	mrg := "()"
+	if c.Disjoint {
+		mrg = sxL(c.Merge.sx())
+	}
+	return sxL(compTable(2, vals), sxList(tables), sxList(gets), c.All.sx(), sxList(froms), sxList(ranges), c.Compact.sx(), c.CompactST.sx(), mrg)
+}
 
 func (c *c08Case) hasEmptyKey() bool {
 	for _, t := range c.Tables {
